@@ -6,8 +6,8 @@
    (sort.Slice leaves the order of equal counts open above 12 batches) and SOME
    iteration order of the Go map that collects the consolidated batches.  Every
    theorem below holds for all inputs and all such choices. *)
-From Coq Require Import List Permutation Sorted ZArith.
-From ACH Require Import Bytes Flatten FlattenFacts C12Obl.
+From Coq Require Import List Permutation Sorted ZArith String.
+From ACH Require Import Bytes Flatten FlattenFacts LayoutTypes Layouts FlattenTable FlattenSrc C12Obl.
 
 (* same multiset of (header signature, entry) pairs — nothing lost, duplicated or
    moved under another header; ADV entries likewise *)
@@ -20,7 +20,7 @@ Print Assumptions C12_conservation.
 (* hence equal entry count, entry/addenda count and debit and credit totals *)
 Theorem C12_figures : forall inp out,
   kinds_consistent inp -> flatten_spec inp out ->
-  length (ids out) = length (ids inp) /\ entry_addenda_count out = entry_addenda_count inp
+  List.length (ids out) = List.length (ids inp) /\ entry_addenda_count out = entry_addenda_count inp
   /\ debit_total out = debit_total inp /\ credit_total out = credit_total inp.
 Proof. exact flatten_figures. Qed.
 Print Assumptions C12_figures.
@@ -97,3 +97,22 @@ Theorem C12_trace_order : forall a b c,
   /\ (lex_ltb a b = false -> lex_ltb b a = false -> a = b).
 Proof. exact (fun a b c => conj (lex_ltb_irrefl a) (conj (lex_ltb_trans a b c) (lex_ltb_total a b))). Qed.
 Print Assumptions C12_trace_order.
+
+(* the source of this run has the constants and shapes the model assumes: the
+   signature is the first 87 characters of the header for both kinds of batch,
+   all sorts are ascending, the candidate loop is first-fit, nothing unrecognised *)
+Theorem C12_source_facts :
+  (forall w, ~ In (FUnknown w) flatten_src)
+  /\ (forall r u w, In (FSigWidth r u w) flatten_src -> u = "rune"%string /\ w = sig_width)
+  /\ (forall s k o, In (FSort s k o) flatten_src -> o = "<"%string)
+  /\ In (FFirstFit true) flatten_src /\ ~ In (FFirstFit false) flatten_src.
+Proof. exact flatten_src_facts. Qed.
+Print Assumptions C12_source_facts.
+
+(* ... and in the record layouts regenerated from the header sources the batch
+   number starts right after column 87, the SEC code sits in columns 51-53 of
+   both header types (so the kind of a batch is a function of its signature) *)
+Theorem C12_signature_layout :
+  header_layout_ok L_BatchHeader = true /\ header_layout_ok L_IATBatchHeader = true.
+Proof. exact header_layouts_ok. Qed.
+Print Assumptions C12_signature_layout.
